@@ -105,7 +105,12 @@ def _predictive(rng, n_out=None, sbml=False):
         n_out = n_out or int(rng.integers(1, 4))
         m = toys.ToyMulti(n_out)
     ems = [EMS[int(rng.integers(4))] for _ in range(n_out)]
+    if rng.random() < 0.25:
+        # the user's model may have its sensitivities switched on (e.g.
+        # after a gradient-based inference): sampling needs the outputs only
+        m.enable_sensitivities(True)
     pm = chi.PredictiveModel(m, [getattr(chi, e)() for e in ems])
+    m.enable_sensitivities(False)       # the harness's reference model
     n_mech = m.n_parameters()
     if sbml:
         mech = rng.uniform(0.5, 1.5, n_mech)
